@@ -33,7 +33,7 @@ from genjax.inference.smc import Importance, ImportanceK
 from .. import seam
 from ..common import Case, close
 from ..harness import base_key
-from ..infref import FLIP, Net, cat, decode, read, vkey
+from ..infref import FLIP, Net, blame, cat, decode, read, vkey
 
 PROPERTY = "C25"
 LEVEL = "model_checking"
@@ -53,7 +53,7 @@ ASSUMPTIONS = [
     "Marginal re-targets it through ChangeTarget",
 ]
 BOUNDS = {
-    "quick": dict(programs=5, selections="all, all-explicit, singles, pairs", algorithms=["none", "Importance", "ImportanceK(2)"], args=1, max_paths=4096),
+    "quick": dict(programs=5, selections="algorithm none: all, all-explicit, singles, pairs; with algorithm: all, first, last, first+last", algorithms=["none", "Importance", "ImportanceK(2)"], args=1, max_paths=4096),
     "thorough": dict(programs=6, selections="all, all-explicit, singles, pairs", algorithms=["none", "Importance", "ImportanceK(2)", "ImportanceK(3)"], args=2, max_paths=16384),
 }
 JOBS = {"quick": 8, "thorough": 16}
@@ -269,7 +269,13 @@ def _run(pname, algname, selname, tier, seed):
         key = base_key(seed)
         max_paths = BOUNDS[tier]["max_paths"]
         closed = net.parents_closed(sel_addrs, arg_alphabet)
-        icls = f"selection={_selclass(net, sel_addrs, closed)};algorithm={'none' if algname == 'none' else algname.rstrip('0123456789')}"
+        icls = f"algorithm={'none' if algname == 'none' else algname.rstrip('0123456789')};selection={_selclass(net, sel_addrs, closed)}"
+        # exactness clause (v).  With an SMC algorithm the proposal of the unselected choices is the
+        # internal proposal of the algorithm's *initial* target (placeholder values), so exactness is
+        # only demanded when the placeholder cannot matter: the selected choices do not influence the
+        # unselected ones either.
+        rest = [a for a in net.addrs if a not in sel_addrs]
+        exact = closed and (algname == "none" or net.parents_closed(rest, arg_alphabet))
         alladdrs = net.addrs + ["zz"]
         # placeholder values of the algorithm's initial target (rotated by the seed; no verdict depends on it)
         s0 = tuple(net.values[a][seed % len(net.values[a])] for a in sel_addrs)
@@ -301,7 +307,7 @@ def _run(pname, algname, selname, tier, seed):
                     continue
                 except Exception as e:  # the library raising here is a violation (all inputs are in the documented domain)
                     ctx.ev((pname, selname, algname, args, "rw-exc"), nontrivial=True)
-                    ctx.fail("Marginal.random_weighted", "random_weighted", icls, f"exception:{type(e).__name__}", dict(idn, msg=str(e)[:400]))
+                    ctx.fail(blame(e, "Marginal.random_weighted"), "random_weighted", icls, f"exception:{type(e).__name__}", dict(idn, msg=_plain(str(e))[:400]))
                     continue
                 ctx.note("trees")
                 ctx.note("paths", len(paths))
@@ -323,7 +329,7 @@ def _run(pname, algname, selname, tier, seed):
                     s = tuple(got[a] for a in sel_addrs)
                     mass[s] = mass.get(s, 0.0) + p.prob
                     inv[s] = inv.get(s, 0.0) + p.prob * math.exp(-w)
-                    if closed and not close(w, math.log(pref[s])):
+                    if exact and not close(w, math.log(pref[s])):
                         bad_exact.append(dict(sample=list(s), w=w, log_p_ref=math.log(pref[s]), path_prob=p.prob))
                 if bad_addr:
                     ctx.fail("Marginal.random_weighted", "random_weighted", icls, "addresses", dict(idn, n_bad=len(bad_addr), first=bad_addr[:2]))
@@ -341,7 +347,7 @@ def _run(pname, algname, selname, tier, seed):
                 if bad_exact:
                     ctx.fail("Marginal.random_weighted", "random_weighted", icls, "weight_exact", dict(idn, n_bad=len(bad_exact), n_paths=len(paths), first=bad_exact[:3]))
                 if args == arg_alphabet[0]:
-                    ctx.sample(dict(idn, closed=closed, paths=len(paths), p_ref={repr(k): v for k, v in pref.items()},
+                    ctx.sample(dict(idn, closed=closed, exactness_demanded=exact, paths=len(paths), p_ref={repr(k): v for k, v in pref.items()},
                                     first_leaf=dict(prob=paths[0].prob, w=float(paths[0].result["w"]), sample=decode(alladdrs, paths[0].result["choices"]))))
                 # ---------------- estimate_logpdf for every sample value
                 for s in sorted(pref, key=repr):
@@ -356,7 +362,7 @@ def _run(pname, algname, selname, tier, seed):
                         # beartype rejects every positional model argument that is not a tuple (annotation
                         # `*args: tuple[Any, ...]`): one coarse class, independent of selection / algorithm
                         hint = "violates type hint" in str(e) and any(not isinstance(a, tuple) for a in args)
-                        ctx.fail("Marginal.estimate_logpdf", "estimate_logpdf", "args=non-tuple" if hint else icls,
+                        ctx.fail(blame(e, "Marginal.estimate_logpdf"), "estimate_logpdf", "args=non-tuple" if hint else icls,
                                  f"exception:{type(e).__name__}", dict(idn, sample=list(s), msg=_plain(str(e))[:400]))
                         break
                     ctx.note("trees")
@@ -369,10 +375,10 @@ def _run(pname, algname, selname, tier, seed):
                     for i, p in enumerate(epaths):
                         est = float(p.result)
                         # deterministic (single-leaf) trees are non-trivial only when the value itself is checked
-                        ctx.ev((pname, selname, algname, args, "el", s, i), nontrivial=(p.n_branch > 0 or closed))
+                        ctx.ev((pname, selname, algname, args, "el", s, i), nontrivial=(p.n_branch > 0 or exact))
                         ctx.state((pname, selname, algname, args, "el", s, round(est, 4)))
                         mean += p.prob * math.exp(est)
-                        if closed and not close(est, math.log(pref[s])):
+                        if exact and not close(est, math.log(pref[s])):
                             bad.append(dict(sample=list(s), estimate=est, log_p_ref=math.log(pref[s]), path_prob=p.prob))
                     if bad:
                         ctx.fail("Marginal.estimate_logpdf", "estimate_logpdf", icls, "estimate_exact", dict(idn, n_bad=len(bad), first=bad[:3]))
@@ -391,7 +397,12 @@ def cases(tier, seed):
     for pname in names:
         net = PROGRAMS[pname][1]
         for algname in ALGS[tier]:
-            for sel in selections(net, tier):
+            sels = selections(net, tier)
+            if tier == "quick" and algname != "none" and len(net.addrs) >= 3:
+                # with an algorithm: everything, first / last single address, the first+last pair
+                keep = {"all", net.addrs[0], net.addrs[-1], f"{net.addrs[0]}+{net.addrs[-1]}"}
+                sels = [x for x in sels if x[0] in keep]
+            for sel in sels:
                 if only and only not in f"{pname}/{algname}/{sel[0]}":
                     continue
                 yield Case(f"{pname}/{algname}/{sel[0]}", _run(pname, algname, sel[0], tier, seed), dict(program=pname, algorithm=algname, selection=sel[0], addresses=list(sel[1])))
